@@ -80,7 +80,7 @@ def strategy_(draw, tier):
             'r2': [draw(st.sampled_from(PRESERVING)), draw(st.integers(0, 50))]}
   recipe = draw(dags.dag(
       max_nodes=10, min_nodes=3, leaf_profile='nan_free', bts=('Config', 'Config', 'Partial'),
-      kinds=['B', 'B', 'B', 'list', 'tuple', 'dict', 'mdict', 'mdict', 'nt', 'ltuple', 'ntuple', 'set', 'Bmut1',
+      kinds=['B', 'B', 'B', 'list', 'tuple', 'dict', 'mdict', 'mdict', 'nt', 'ltuple', 'ntuple', 'set', 'set', 'set', 'Bmut1',
              # further node kinds of the shared generator that this check's oracle handles (each once)
              'TV', 'ddict', 'kdict', 'fset', 'Bpos', 'Bann', 'Bmutnest', 'Bpo', 'Bpo3', 'Bdc', 'Bempty', 'AFP', 'odict', 'dcinst'],
       p_alias=0.75,
